@@ -20,6 +20,8 @@ def install(models):
         if data is None or truth(is_remote_frame):
             # python-can drops the payload of a remote frame (a CAN remote frame carries none)
             d = SBytes([], True)
+        elif isinstance(data, SBytes) and data.kind == "bytearray":
+            d = data                      # python-can keeps a bytearray argument itself (shared, not copied)
         elif isinstance(data, SBytes):
             d = SBytes(data.items, True)
         elif isinstance(data, LBytes):
@@ -72,6 +74,38 @@ def install(models):
             raise Unsupported("Condition.wait without a havoc hook")
         return h(interp, s, timeout)
     models.methods[(CondModel, "wait")] = B("cond.wait", cond_wait)
+
+    # ---- collections.abc.Mapping mixin methods (defined through __iter__ / __getitem__) ----------
+    from collections.abc import Mapping
+
+    def mp_keys(interp, s):
+        return I._IterVal(interp.iterate(s))
+
+    def mp_values(interp, s):
+        return I._IterVal([interp.getitem(s, k) for k in interp.iterate(s)])
+
+    def mp_items(interp, s):
+        return I._IterVal([(k, interp.getitem(s, k)) for k in interp.iterate(s)])
+
+    def mp_get(interp, s, k, default=None):
+        try:
+            return interp.getitem(s, k)
+        except PyRaise as e:
+            if issubclass(e.exc.cls, KeyError):
+                return default
+            raise
+
+    def mp_contains(interp, s, k):
+        try:
+            interp.getitem(s, k)
+            return True
+        except PyRaise as e:
+            if issubclass(e.exc.cls, KeyError):
+                return False
+            raise
+    for nm, fn in (("keys", mp_keys), ("values", mp_values), ("items", mp_items), ("get", mp_get),
+                   ("__contains__", mp_contains)):
+        models.methods[(Mapping, nm)] = B("Mapping." + nm, fn)
 
     # ---- queue.Queue (FIFO; an empty queue asks the environment hook for the next item) -----------
     def queue_ctor(interp, maxsize=0):
